@@ -241,6 +241,48 @@ def r5_model_space(rule, root=None):
             rule.bad("model-space|divide", "Octree::%s moves a vertex with `%s`: a matrix product without the division by w, while the evaluators place the surface with the full projective map - under a perspective transform every vertex is scaled by its own w" % (fn["name"], val[:80]), A.where(fn, a))
 
 
+def r6_orientation(rule, root=None):
+    """triangles come out of the lattice walk wound outward *in the octree's own frame*; the vertices are then
+    mapped through `world_to_model`.  A map with a negative determinant (a mirror) reverses the orientation of
+    every triangle, so something must look at the sign of the determinant and swap two indices per triangle
+    (or the mesh is inside-out: signed volume -0.53 for a sphere of radius 0.5 under scale(-1, 1, 1))."""
+    hits = []
+    for f in ("octree.rs", "builder.rs", "lib.rs", "dc.rs"):
+        path = "fidget-mesh/src/%s" % f
+        try:
+            d = A.load(path, root)
+        except Exception:  # noqa: BLE001
+            continue
+        for fn in d["_fns"]:
+            if fn.get("_test") or fn.get("body") is None:
+                continue
+            for c in A.find(fn["body"], "MethodCall"):
+                if c["method"] == "determinant" and "world_to_model" in str(txt(c["recv"])):
+                    hits.append((path, fn, c))
+    moved = []
+    for name in ("build", "build_inner", "build_inner_mt"):
+        fn = A.find_fn(OCT, name, self_ty="Octree", root=root)
+        body = A.inline_helpers(fn)
+        if any(str(txt(a["left"])).endswith(".pos") for a in A.find(body, "Assign")) and "world_to_model" in str(txt(A.value_view(body))):
+            moved.append(fn)
+    if not moved:
+        rule.lost("the loop that moves the finished vertices back to model space")
+        return
+    if not hits:
+        rule.bad("orientation|mirror", "Octree::%s maps the finished vertices through world_to_model, but nothing in fidget-mesh looks at the sign of its determinant: under an orientation-reversing transform (a mirror, e.g. scale(-1, 1, 1)) every triangle comes out wound inward - a sphere of radius 0.5 meshes with signed volume -0.53" % moved[0]["name"], A.where(moved[0]))
+        return
+    # the sign must reach the triangle order: a negative-determinant test that guards (or is stored in a flag that guards) a swap of two indices
+    path, fn, c = hits[0]
+    conds = [x for x in A.find(fn["body"], "Binary") if x["op"] in ("<", ">", "<=", ">=") and any(n is c for n in A.walk(x))]
+    wd = A.find_fn(OCT, "walk_dual", self_ty="Octree", root=root)
+    t_all = str(txt(wd["body"])) + str(txt(fn["body"]))
+    swaps = re.search(r"swap_rows\(|\.swap\(|mem::swap\(|Vector3::new\((\w+)\.x,\1\.z,\1\.y\)|Vector3::new\((\w+)\.y,\2\.x,\2\.z\)|Vector3::new\((\w+)\[0\],\3\[2\],\3\[1\]\)", t_all)
+    if conds and swaps:
+        rule.ok("a negative determinant of world_to_model flips the winding of every triangle", file=path, line=c["ln"])
+    else:
+        rule.bad("orientation|unused", "the determinant of world_to_model is computed in %s but no triangle's index order depends on its sign" % fn["name"], A.where(fn, c))
+
+
 def run(ctx):
     r = ctx.rule("R1", "dual walk: every recursive face/edge call is geometrically consistent on the sub-cell lattice; frames are right-handed rotations", 39)
     ctx.guarded(r, DW.r1_dual_walk)
@@ -254,3 +296,5 @@ def run(ctx):
     ctx.guarded(r, r4b_error_flow)
     r = ctx.rule("R5", "finished vertices go back to model space through the same projective map the evaluators used", 1)
     ctx.guarded(r, r5_model_space)
+    r = ctx.rule("R6", "an orientation-reversing world_to_model flips the winding (sign of the determinant reaches the triangle order)", 1)
+    ctx.guarded(r, r6_orientation)
